@@ -283,6 +283,23 @@ def run_harness(cfg, seed, tier, log):
         return json.load(f), None
 
 
+def shard_jobs():
+    """Number of coqc shard evaluations to run at once: VERIF_JOBS if set, else 14, but not more than
+    the memory that is free right now allows (a shard takes up to ~1 GiB; when other work has the
+    machine short of memory the kernel kills coqc processes, which costs re-runs)."""
+    if os.environ.get("VERIF_JOBS"):
+        return max(1, int(os.environ["VERIF_JOBS"]))
+    jobs = 14
+    try:
+        with open("/proc/meminfo") as f:
+            for line in f:
+                if line.startswith("MemAvailable:"):
+                    jobs = min(jobs, max(2, int(line.split()[1]) // (1024 * 1024)))
+    except (OSError, ValueError):
+        pass
+    return jobs
+
+
 def run_shard(args):
     shard, timeout = args
     t0 = time.time()
@@ -396,7 +413,7 @@ def main(argv):
     shard_times = {}
     if rep is not None and ok_build:
         per = cfg.get("shard_timeout_s", 900 if tier == "quick" else 3600)
-        with ThreadPoolExecutor(max_workers=int(os.environ.get("VERIF_JOBS", "14"))) as ex:
+        with ThreadPoolExecutor(max_workers=shard_jobs()) as ex:
             for shard, idx, err, dt in ex.map(run_shard, [(s, per) for s in rep["shards"]]):
                 shard_times[shard] = round(dt, 1)
                 if idx is None:
